@@ -423,10 +423,19 @@ func scalarReflectFromGo(schema *schema_j5pb.Field, value interface{}) (protoref
 	}
 }
 
+// maxDecimalExponent is the largest power of ten accepted in a decimal
+// literal, the exponent range of IEEE 754 decimal128. The stored form is plain
+// digits, so the exponent is expanded: without a bound a few bytes of input
+// ("1e999999999") ask for gigabytes of digits.
+const maxDecimalExponent = 6144
+
 func decimalFromString(val string) (protoreflect.Value, error) {
 	d, err := decimal.NewFromString(val)
 	if err != nil {
 		return protoreflect.Value{}, err
+	}
+	if d.Exponent() > maxDecimalExponent || d.Exponent() < -maxDecimalExponent {
+		return protoreflect.Value{}, fmt.Errorf("decimal exponent %d is out of range", d.Exponent())
 	}
 	msg := decimal_j5t.FromShop(d)
 	return protoreflect.ValueOfMessage(msg.ProtoReflect()), nil
